@@ -29,6 +29,15 @@ class filter:
             for b, a in (([0], [1]), ([], [1]), ([0, 0], [2]), ([1, 1], [1]), ([0, 1], [1, -1]), ([2, 0, 1], [1, 0, 1])):
                 for memkind in ("none", "list"):
                     yield {"b": [str(v) for v in b], "a": [str(v) for v in a], "x": [str(v) for v in xs[:4]], "mem": memkind, "zero": zero}
+        # scale: feedback / feed-forward taps at delays 10..16, dense order 12 (the generated code has one state variable per delay)
+        long_x = [str(F(i * i - 4 * i + 1)) for i in range(24)]
+        for b, a in (([1], [1] + [0] * 9 + [-1]), ([1], [1] + [0] * 11 + [2]), ([1, 1], [-1] + [0] * 15 + [3]), ([0] * 10 + [1], [1]),
+                     ([1, 2], [1, -1, 2, 0, 1, -2, 1, 0, 3, 1, -1, 2, 1]), ([1] + [0] * 15 + [-2], [-1] + [0] * 9 + [3])):
+            for memkind in ("none", "list", "callable"):
+                yield {"b": [str(v) for v in b], "a": [str(v) for v in a], "x": long_x, "mem": memkind, "zero": "0"}
+        # equal coefficient values of another numeric type one after the other (float first, then int): no state between calls
+        for b, a in (([5.0, 3.0], [1.0, -2.0]), ([5, 3], [1, -2]), ([7.0, 0.0, 1.0], [2.0, 3.0]), ([7, 0, 1], [2, 3]), ([5.0, 3.0], [1.0, -2.0])):
+            yield {"b": [repr(v) for v in b], "a": [repr(v) for v in a], "x": [str(v) for v in xs[:5]], "mem": "none", "zero": "0", "typed": True}
         for la in (1, 2, 3):
             for lb in (1, 2, 3):
                 for b in itertools.product(CO, repeat=lb):
@@ -46,6 +55,17 @@ class filter:
     @staticmethod
     def check(inp):
         from audiolazy import LinearFilter
+        if inp.get("typed"):
+            # coefficients of the numeric type written (float or int); int coefficients with a0 = 1 keep Fraction samples exact
+            bt, at = [eval(v) for v in inp["b"]], [eval(v) for v in inp["a"]]
+            x_ = [F(v) for v in inp["x"]]
+            got = list(LinearFilter(bt, at)(list(x_), zero=0))
+            exp_ = model([F(v) for v in bt], [F(v) for v in at], x_, [F(0)] * (len(at) - 1), F(0))
+            if any(abs(float(g) - float(e)) > 1e-9 for g, e in zip(got, exp_)) or len(got) != len(exp_):
+                return "LinearFilter(%r, %r): got %r, difference equation gives %r" % (bt, at, got, [str(e) for e in exp_])
+            if all(isinstance(v, int) for v in bt + at) and any(isinstance(g, float) for g in got):
+                return "LinearFilter(%r, %r) with integer coefficients on Fraction samples returned floats %r (exact values %r): state from an earlier call with float coefficients?" % (bt, at, got, [str(e) for e in exp_])
+            return None
         b, a = [F(v) for v in inp["b"]], [F(v) for v in inp["a"]]
         x, zero = [F(v) for v in inp["x"]], F(inp["zero"])
         # integer coefficients survive the text round trip exactly; Fractions are evaluated as floats (tolerance)
